@@ -46,9 +46,18 @@ pub(super) struct AluKey {
     a: u32,
     b: u32,
     c: u32,
+    /// Accumulator input of a `HornerAcc` op (`None` for every other kind).
+    acc: Option<u32>,
 }
 
 impl AluKey {
+    /// Adds the accumulator operand of a `HornerAcc` op to the key: two Horner steps that
+    /// differ only in their accumulator compute different values.
+    pub(super) fn with_acc(mut self, acc: Option<WitnessId>) -> Self {
+        self.acc = acc.map(|id| id.0);
+        self
+    }
+
     /// Builds a dedup key, sorting operands for commutative ops.
     pub(super) fn new(kind: AluOpKind, a: WitnessId, b: WitnessId, c: Option<WitnessId>) -> Self {
         match kind {
@@ -57,18 +66,21 @@ impl AluKey {
                 a: a.0.min(b.0),
                 b: a.0.max(b.0),
                 c: 0,
+                acc: None,
             },
             AluOpKind::BoolCheck => Self {
                 kind,
                 a: a.0,
                 b: b.0,
                 c: 0,
+                acc: None,
             },
             AluOpKind::MulAdd | AluOpKind::HornerAcc => Self {
                 kind,
                 a: a.0,
                 b: b.0,
                 c: c.unwrap_or(WitnessId(0)).0,
+                acc: None,
             },
         }
     }
